@@ -497,6 +497,40 @@ func (g *c20Gen) observation(node bool) {
 		adv = true
 	}
 	name := c20Names[g.rng.Intn(len(c20Names))]
+	if g.in.cl != nil && g.dim > 0 && g.rng.Intn(3) == 0 {
+		// gentle push against a peer with a NEGATIVE height while the client still sits at the origin (fresh or just
+		// reset): the height delta (own+peer height)*force/mag is negative although the force is positive, and the
+		// gravity step does not touch the height because the node stays within 1e-6 s of the origin. Only the
+		// unconditional floor in ApplyForce keeps height >= HeightMin here (C20_height_floor_unconditional).
+		cur := g.in.cl.GetCoordinate()
+		atOrigin := true
+		for _, x := range cur.Vec {
+			if x != 0 {
+				atOrigin = false
+			}
+		}
+		if atOrigin {
+			p := &coordinate.Coordinate{Vec: make([]float64, g.dim), Error: g.rng.Float64() * 1.5}
+			d0 := []float64{0.001, 0.01, 0.05, 0.1}[g.rng.Intn(4)]
+			p.Vec[g.rng.Intn(g.dim)] = d0 * []float64{1, -1}[g.rng.Intn(2)]
+			switch g.rng.Intn(3) {
+			case 0: // small negative height
+				p.Height = -d0 * (0.1 + 0.8*g.rng.Float64())
+			case 1: // huge negative height compensated by the adjustment, so the estimate stays plausible
+				hp := []float64{1, 1000, 1e6}[g.rng.Intn(3)]
+				p.Height, p.Adjustment = -hp, hp
+			default: // negative enough to make the raw distance negative, small positive adjustment
+				p.Height, p.Adjustment = -2*d0, 1.5*d0
+			}
+			if est := int64(g.in.cl.DistanceTo(p)); est >= 0 && est < 9000000000 {
+				c = p
+				rtt = est + int64(1000+g.rng.Intn(9000))      // 1-10 µs above the estimate: a push of < 1e-6 s
+				name = fmt.Sprintf("neg%d", g.rng.Intn(1000)) // a fresh filter entry: the median is this rtt
+				g.tags["negative-peer-height-push"] = true
+				adv = true
+			}
+		}
+	}
 	rnd := g.rnd()
 	before := g.in.src.used
 	var out string
@@ -612,7 +646,7 @@ func init() {
 		Rule: "client cases: a random configuration (default, or dim 1-4 / window 0-3 / filter 1-3 / several CE, CC, HeightMin, ErrorMax, Rho; rarely dim 0 or filter 0), then 3-30 (thorough 3-60) " +
 			"operations: mostly Update with a realistic peer coordinate, 1/4 carrying 1-3 adversarial values (NaN, ±Inf, ±0, subnormals, 1e308, 1e154, values around the 1e-6 threshold, …), 1/40 each with dimension ±1 / 0, " +
 			"1/6 with the peer exactly at (or 0.5 µs from) the client's current position so that the random unit vector is drawn from the oracle, rtt realistic or (1/5) from {-1,0,1,…,10 s,10 s+1 ns,MaxInt64,MinInt64}; " +
-			"also SetCoordinate, ForgetNode, DistanceTo. node cases: a real single Serf node, NotifyPingComplete with payloads encoded by the delegate's codec (and empty / wrong version / truncated payloads). " +
+			"1/3 of the observations made while the client sits at the origin (fresh or just reset) are gentle pushes (rtt 1-10 µs above the estimate) against a valid peer with a NEGATIVE height (small; huge with a compensating adjustment; raw distance negative), the case in which only the unconditional HeightMin floor of ApplyForce protects the height; also SetCoordinate, ForgetNode, DistanceTo. node cases: a real single Serf node, NotifyPingComplete with payloads encoded by the delegate's codec (and empty / wrong version / truncated payloads). " +
 			"non-trivial = at least two accepted updates, one rejected observation and one adversarial value in the case; distinct = distinct op sequence",
 		Gen:  c20GenCases,
 		Exec: c20Exec,
